@@ -27,7 +27,7 @@ NOT_DECIDED = ("the digest value and sign extension of narrow samples; `len_hint
                "(source contract); behaviour under interleavings")
 ASSUMPTIONS = ["Source::len_hint, when Some, equals the number of inter-channel samples the source delivers"]
 
-LOG = (r"set_md5_digest$|set_total_samples$|ParContext::request_stop$|ParContext::finalize$|feed_fixed_block_size|"
+LOG = (r"set_md5_digest$|set_total_samples$|ParContext::request_stop$|ParContext::finalize$|__FEEDER__|"
        r"Source>::read_samples|Stream::new$|Context::new$|ParContext::new$|Context::md5_digest$|Context::total_samples$|"
        r"Source>::len_hint$")
 NOINLINE = [r"^par::", r"^source::", r"^coding::", r"datatype::", r"^<.* as source::"]
@@ -37,10 +37,17 @@ def applicable(tag):
     return True
 
 
+def feeder_name(facts):
+    try:
+        return lib_fill.feeder_body(facts).id
+    except FactError:
+        return "<no feeder>"
+
+
 def call_log(facts, body):
     ctx = E.Ctx(facts)
     ctx.open_loops = True
-    ctx.log_calls = LOG
+    ctx.log_calls = LOG.replace("__FEEDER__", re.escape(feeder_name(facts)))
     ctx.noinline = list(NOINLINE)
     it = E.Interp(ctx, body)
     it.run()
@@ -103,7 +110,7 @@ def encoder_rules(facts):
         ctx_key = E.canon(ctxv)
         # where the blocks go
         if is_par:
-            feed = [c for c in log if "feed_fixed_block_size" in c[0]]
+            feed = [c for c in log if feeder_name(facts) in c[0]]
             pnew = [c for c in log if c[0].endswith("ParContext::new")]
             okd = len(feed) == 1 and len(pnew) == 1 and E.canon(pnew[0][1][0]) == ctx_key \
                 and E.canon(feed[0][1][4]) == E.canon(("call", "par::ParContext::new", pnew[0][1], ())) \
